@@ -78,6 +78,13 @@ CONSTS = [
     # (C12 also uses BACKPRESSURE_BOUNDARY, defined above for C04)
 ]
 
+# String constants (group 1 = the literal's content, plain ASCII without escapes): emitted as
+# <name>_BE (the bytes read as one big-endian number) and <name>_LEN.
+STR_CONSTS = [
+    # C01
+    ("C01_STATIC_KEY_DOMAIN", NOISE, r'const\s+STATIC_KEY_DOMAIN\s*:\s*&str\s*=\s*"([^"\\\\]*)"\s*;'),
+]
+
 
 def eval_int(expr, names=None):
     e = re.sub(r"(?<=\d)_(?=\d)", "", expr)
@@ -134,6 +141,21 @@ def main():
     if table:
         vals["CONN_EXIT_SITES"] = len(table)
     missing += list(miss)
+    str_names = []
+    for name, path, rx in STR_CONSTS:
+        try:
+            src = open(os.path.join(REPO, path)).read()
+        except OSError:
+            missing.append((name + "_BE", path, "file not found"))
+            continue
+        m = re.search(rx, src)
+        if not m or not m.group(1).isascii():
+            missing.append((name + "_BE", path, "pattern not found"))
+            continue
+        raw = m.group(1).encode("ascii")
+        vals[name + "_BE"] = int.from_bytes(raw, "big") if raw else 0
+        vals[name + "_LEN"] = len(raw)
+        str_names += [name + "_BE", name + "_LEN"]
     lines = [
         "(* GENERATED by tools/gen_consts.py from the Rust source on every check. Do not edit. *)",
         "From Coq Require Import NArith.",
@@ -147,6 +169,8 @@ def main():
         seen.add(name)
         if name in vals:
             lines.append("Definition %s : N := %d." % (name, vals[name]))
+    for name in str_names:
+        lines.append("Definition %s : N := %d." % (name, vals[name]))
     text = "\n".join(lines) + "\n"
     os.makedirs(os.path.dirname(OUT), exist_ok=True)
     old = open(OUT).read() if os.path.exists(OUT) else None
